@@ -11,6 +11,7 @@ EXPLANATION = (
     "segment builder receives the existing segments or the segment type can carry edge tombstones; "
     "(3) every CsrSegment literal with no edges still has sentinel reverse offsets (an empty `in_offsets` makes incoming_neighbors index out of bounds). "
     "It does not decide equality of reads before/after compaction."
+    " C05.6: build_segment_from_runs grows its tombstone sets per run, inside the loop and before that run's edges are filtered."
 )
 
 L0RUN = "nervusdb_storage::snapshot::L0Run"
